@@ -626,6 +626,8 @@ class RegionLifter:
                 return self.ev(r[1], {}, F)
             if isinstance(r, tuple) and r[0] == "ext":
                 return r[1]                  # external name (a dtype, ...): opaque
+            if node.id in ("float", "int", "bool", "complex"):
+                return node.id               # a builtin type used as a dtype
             raise Unsupported(f"name {node.id}")
         if isinstance(node, ast.UnaryOp):
             v = self.ev(node.operand, env, F)
@@ -733,7 +735,7 @@ class RegionLifter:
         kw = {k.arg: self.ev(k.value, env, F) for k in node.keywords if k.arg}
         if isinstance(f, ast.Attribute) and not (isinstance(f.value, ast.Name)
                                                  and f.value.id in ("np", "numpy", "math", "linalg")) \
-                and not name.startswith(("np.linalg.", "np.random.")):
+                and not name.startswith(("np.linalg.", "np.random.", "np.add.", "np.maximum.", "np.minimum.")):
             recv = self.ev(f.value, env, F)
             args = [self.ev(a, env, F) for a in node.args]
             if isinstance(recv, Obj):
@@ -884,8 +886,20 @@ class RegionLifter:
                     return Mat(Vec(r) for r in a)
                 return Vec(a)
             raise Unsupported("np.array argument")
-        if name in ("np.asarray", "np.ascontiguousarray") and isinstance(args[0], (list, tuple)):
-            return Vec(args[0])
+        if name in ("np.asarray", "np.ascontiguousarray", "np.asfortranarray"):
+            if isinstance(args[0], (Vec, Mat)):
+                return args[0]               # same array (no copy): aliasing is kept
+            if isinstance(args[0], (list, tuple)):
+                return Vec(args[0])
+        if name == "np.add.reduceat" and len(args) == 2 and isinstance(args[0], (Vec, list)):
+            idx = [self.as_int(k) for k in args[1]]
+            out = Vec()
+            for k, lo in enumerate(idx):
+                hi = idx[k + 1] if k + 1 < len(idx) else len(args[0])
+                if not 0 <= lo < len(args[0]):
+                    raise Raised(f"reduceat index {lo} out of bounds for an array of length {len(args[0])}")
+                out.append(self.total(Vec(args[0][lo:hi])) if hi > lo else R(args[0][lo]))
+            return out
         if name == "np.arange":
             return Vec(range(*[self.as_int(a) for a in args]))
         if name == "np.argsort":
